@@ -1208,10 +1208,10 @@ class XmlDocument(SubXmlBase):
         return retval
 
     def iterable_from_element(self, ctx, cls, element):
-        (serializer,) = cls._type_info.values()
-
-        for child in element.getchildren():
-            yield self.from_element(ctx, serializer, child)
+        # the document is in memory already. the items are read here and not
+        # while user code iterates, where an item that can't be read would
+        # fail the call after it has started.
+        return iter(self.array_from_element(ctx, cls, element))
 
     def enum_from_element(self, ctx, cls, element):
         if self.validator is self.SOFT_VALIDATION and not (
